@@ -53,7 +53,8 @@ inductive Ex where
 
 inductive Item where
   | const (x : Name) (e : Ex)
-  | group (xs : List Name) (e : Ex)                 -- const ( x0 = e; x1; ... ) : e repeated, iota counts
+  | group (xs : List Name) (t : List Name) (raw : Bool) (e : Ex)
+      -- const ( x0 [t] = e; x1; ... ) : type and e repeated, iota counts; raw: e is written untyped (bare iota), not t(e)
   | var (x : Name) (t : List Name) (e : Ex)         -- var x [t] = e   (t: 0 or 1 names; the value is converted: t(e))
   | typ (x : Name) (u : List Name)                  -- type x int | type x u
   | struct (x : Name) (fields : List Name)          -- type x struct { f0 *t0; ... }
@@ -87,15 +88,25 @@ def toNodes : List Ex → List Node
   | e :: r => toNode e :: toNodes r
 end
 
+/-- an untyped constant expression over literals and iota, written without the int(..) wrappers -/
+def toNodeRaw : Ex → Node
+  | .iota => .ident "iota"
+  | .add a b => .other [toNodeRaw a, toNodeRaw b]
+  | .mul a b => .other [toNodeRaw a, toNodeRaw b]
+  | e => toNode e
+
 def paramFields (ps : List Name) : List Node := ps.map fun p => .field [p] intT
 
 /-- the declaration as the sorter sees it -/
 def Item.toTop : Item → Top
   | .const x e => .consts [{ names := [x], type := [], values := [toNode e] }]
-  | .group xs e =>
+  | .group xs t raw e =>
     .consts (match xs with
       | [] => []
-      | x :: rest => { names := [x], type := [], values := [toNode e] } ::
+      | x :: rest => { names := [x], type := t.map .ident,
+                       values := [match t with
+                         | [] => toNode e
+                         | tn :: _ => if raw then toNodeRaw e else .other [.ident tn, .other [toNode e]]] } ::
           rest.map fun y => { names := [y], type := [], values := [] })
   | .var x t e =>
     .vars [{ names := [x], type := t.map .ident,
@@ -208,7 +219,7 @@ def evalFuel : Nat := 400
 
 /-- the source declaration a sorted `Decl` stands for -/
 inductive Src where
-  | const (e : Ex) (iota : Nat)
+  | const (t : List Name) (e : Ex) (iota : Nat)
   | var (t : List Name) (e : Ex)
   | typ
   | func (fd : FuncDef)
@@ -218,8 +229,8 @@ inductive Src where
 /-- name in the sorter's result -> source (methods are named "T.m" by the sorter) -/
 def srcTable : List Item → List (Name × Src)
   | [] => []
-  | .const x e :: r => (x, .const e 0) :: srcTable r
-  | .group xs e :: r => (xs.mapIdx fun i x => (x, Src.const e i)) ++ srcTable r
+  | .const x e :: r => (x, .const [] e 0) :: srcTable r
+  | .group xs t _ e :: r => (xs.mapIdx fun i x => (x, Src.const t e i)) ++ srcTable r
   | .var x t e :: r => (x, .var t e) :: srcTable r
   | .typ x _ :: r => (x, .typ) :: srcTable r
   | .struct x _ :: r => (x, .typ) :: srcTable r
@@ -232,8 +243,8 @@ def stepDecl (tbl : List (Name × Src)) (g : Glob) (d : Decl) : Option Glob :=
   else match lookup d.name tbl with
   | none => none
   | some (.typ) => some { g with types := d.name :: g.types }
-  | some (.const e io) =>
-    if staticOK g [] [] e then
+  | some (.const t e io) =>
+    if staticOK g [] [] e && t.all g.types.contains then
       match evalEx g evalFuel [] io e with
       | some v => some { g with vals := (d.name, v) :: g.vals }
       | none => none
